@@ -205,23 +205,21 @@ package state
 //@ func Session.SetEncryptionSession
 //@   modifies s.encryption, s.lock
 
-// Environment of the handshake: storage and key-exchange internals (ECDH, BLAKE3) are not modelled; these calls are
-// assumed not to touch frames, links or the configuration.
+// Environment of the handshake. "modifies nothing + havoc K": callers forget K and keep everything else; the bodies
+// are verified to write nothing outside K (storage bookkeeping, the session's own key state). Only
+// DeriveSessionFromKX is still assumed.
 //@ func State.AddRouter
 //@   modifies nothing
 //@   havoc F|storage., MP|
 //@ func EncryptionSession.InitKeyClientStart
-//@   option trusted
 //@   modifies nothing
 //@   havoc F|state.EncryptionSession, F|state.SequenceHandler
 //@ func EncryptionSession.InitKeyServer
-//@   option trusted
 //@   modifies nothing
-//@   havoc F|state.EncryptionSession, F|state.SequenceHandler
+//@   havoc F|state.EncryptionSession, F|state.SequenceHandler, F|sync/atomic.Uint32
 //@ func EncryptionSession.InitKeyClientComplete
-//@   option trusted
 //@   modifies nothing
-//@   havoc F|state.EncryptionSession, F|state.SequenceHandler
+//@   havoc F|state.EncryptionSession, F|state.SequenceHandler, F|sync/atomic.Uint32
 //@ func EncryptionSession.DeriveSessionFromKX
 //@   option trusted
 //@   modifies nothing
@@ -232,11 +230,9 @@ package state
 
 // Storage bookkeeping for known routers: assumed not to touch frames, links, tables or the configuration.
 //@ func State.AddPublicRouterInfo
-//@   option trusted
 //@   modifies nothing
 //@   havoc F|storage., MP|
 //@ func State.MarkRouterOffline
-//@   option trusted
 //@   modifies nothing
 //@   havoc F|storage., MP|
 
@@ -244,17 +240,20 @@ package state
 // keyed with the half that is recorded as its key.
 //@ func EncryptionSession.initFinalize
 //@   requires s != nil
+//@   modifies any("F|state.EncryptionSession|"), any("F|state.SequenceHandler|"), any("F|sync/atomic.Uint32|")
+//@   ensures exchange-keys-kept [C04,C13]: s.kxRouterPrivate == old(s.kxRouterPrivate) && s.kxRemotePublic == old(s.kxRemotePublic)
 //@   ensures prepared-key-of-the-old-exchange-dropped [C15,C02]: result == nil ==> s.nextInCipher == nil
 //@   ensures directions-keyed-apart [C05,C04]: result == nil ==> s.inCipher != nil && s.outCipher != nil && aeadkey(s.inCipher) == base(s.inKey) && aeadkeyoff(s.inCipher) == off(s.inKey) && aeadkey(s.outCipher) == base(s.outKey) && aeadkeyoff(s.outCipher) == off(s.outKey) && len(s.inKey) == 32 && len(s.outKey) == 32 && base(s.inKey) == base(s.outKey) && off(s.inKey) != off(s.outKey)
 
-// The memory of accepted signed-frame timestamps lives in the session object. Dropping a session that has accepted
-// a signed frame forgets that memory: the same frame is accepted again by the next session for that router.
-// (This obligation FAILS on the current code - see /verif/KNOWN_FINDINGS.txt, C03 "signed frames after session expiry".)
 // Every use stamps the session with the time of that use (the cleaner drops sessions by this stamp, and the replay
 // memory goes with them).
 //@ func Session.inUse
 //@   requires s != nil
 //@   modifies s.lastActivity, s.lock
 //@   ensures stamped-with-the-time-of-use [C03]: s.lastActivity == time_now
+
+// The memory of accepted signed-frame timestamps lives in the session object. Dropping a session that has accepted
+// a signed frame forgets that memory: the same frame is accepted again by the next session for that router.
+// (This obligation FAILS on the current code - see /verif/KNOWN_FINDINGS.txt, C03 "signed frames after session expiry".)
 //@ func State.cleanSessions
 //@   callsite delete replay-memory-survives-session-cleanup [C03]: session.signing == nil || session.signing.seqHandler.latest.IsZero()
